@@ -81,4 +81,142 @@ def inDomain (ms : List Mapping) (d : Json) : Bool :=
   | some v => decide (1 ≤ v) && decide (v ≤ (ms.length : Int) + 1)
   | none => false
 
+/-! ### the documented contract of one mapping application (docs/versioning.rst), as an executable check
+
+  `stepViolations m before after` lists the clauses of the contract that the pair (document before, document after
+  applying mapping `m`) violates.  Clauses, each guarded so that it only speaks where the documentation is
+  unambiguous (no other entry of the same mapping interferes with the keys involved):
+
+  * `deleted`  — "the newer version no longer has this field, and it should be dropped": the key is absent;
+  * `constant` — "populate it with a default value": the key holds the constant (unless `k._mapper` is also given);
+  * `move`     — the key holds what the (dotted) source path held before, when the path's first key is written by no
+                 other entry (it may be `Deleted`: the rename idiom `{"new": "old", "old": Deleted}`);
+  * `function` — the key holds the function applied to the values the argument keys held before, when no other
+                 entry writes an argument key;
+  * `nested`   — `f._mapper`: a sub-document, or every sub-document of a list, satisfies the nested mapping's
+                 contract; `None`/absent stays; list length is kept;
+  * `frame`    — keys the mapping does not mention are unchanged (`version` is the caller's bookkeeping).
+-/
+
+/-- mapping entries with nested contracts resolved -/
+inductive PEntry where
+  | const (v : Json)
+  | deleted
+  | move (path : List String)
+  | sub (post : Json → Json → List String)
+  | fn (f : FnName) (args : List String)
+
+def PEntry.isSub : PEntry → Bool | .sub _ => true | _ => false
+def PEntry.isDeleted : PEntry → Bool | .deleted => true | _ => false
+def PEntry.isWriter1 : PEntry → Bool | .const _ => true | .sub _ => true | .fn _ _ => true | _ => false
+
+def keyed (q : String) (m : List (String × PEntry)) : List PEntry := (m.filter fun p => p.1 == q).map (·.2)
+
+/-- insertion of a key into a key-sorted association list -/
+def insertKV (k : String) (v : Json) : Obj → Obj
+  | [] => [(k, v)]
+  | (k', v') :: r => if k < k' then (k, v) :: (k', v') :: r else (k', v') :: insertKV k v r
+
+mutual
+/-- canonical form: keys of every object sorted (Python's `==` on dicts ignores insertion order) -/
+def Json.norm : Json → Json
+  | .list xs => .list (normList xs)
+  | .obj kvs => .obj (normObj kvs)
+  | j => j
+termination_by structural x => x
+def normList : List Json → List Json
+  | [] => []
+  | x :: r => x.norm :: normList r
+termination_by structural x => x
+def normObj : List (String × Json) → Obj
+  | [] => []
+  | (k, v) :: r => insertKV k v.norm (normObj r)
+termination_by structural x => x
+end
+
+/-- Python `==` on JSON documents -/
+def pyEq (a b : Json) : Bool := a.norm.beq b.norm
+
+def optBeq : Option Json → Option Json → Bool
+  | none, none => true
+  | some a, some b => pyEq a b
+  | _, _ => false
+
+def zipPosts (post : Json → Json → List String) : List Json → List Json → List String
+  | [], [] => []
+  | x :: xs, y :: ys =>
+    (match x with | .obj _ => post x y | _ => []) ++ zipPosts post xs ys
+  | _, _ => ["nested:list-length-changed"]
+
+def entryViolations (m : List (String × PEntry)) (before after : Obj) (k : String) (e : PEntry) : List String :=
+  match e with
+  | .deleted => if (get k after).isSome then [s!"deleted:{k}-still-present"] else []
+  | .const v =>
+    if (keyed k m).any PEntry.isSub then []
+    else if optBeq (get k after) (some v) then [] else [s!"constant:{k}-not-set"]
+  | .move p =>
+    match p with
+    | [] => []
+    | h :: _ =>
+      if (keyed h m).all PEntry.isDeleted || (h == k && (keyed h m).length == 1) then
+        if optBeq (get k after) (some (deepGet (.obj before) p)) then [] else [s!"move:{k}-wrong-value"]
+      else []
+  | .fn g args =>
+    let as := if args.isEmpty then [k] else args
+    let clean := as.all fun a =>
+      if a == k then (keyed k m).length == 1 else !((keyed a m).any PEntry.isWriter1)
+    if clean && (keyed k m).length == 1 then
+      match applyFn g (as.map fun a => getD a before) with
+      | .ok r => if optBeq (get k after) (some r) then [] else [s!"function:{k}-wrong-value"]
+      | .error _ => []
+    else []
+  | .sub post =>
+    if (keyed k m).length == 1 then
+      match get k before with
+      | none => if (get k after).isNone then [] else [s!"nested:{k}-appeared"]
+      | some .null => if optBeq (get k after) (some .null) then [] else [s!"nested:{k}-null-changed"]
+      | some (.list xs) =>
+        match get k after with
+        | some (.list ys) => (zipPosts post xs ys).map fun s => s!"{k}/{s}"
+        | _ => [s!"nested:{k}-list-lost"]
+      | some (.obj kvs) =>
+        match get k after with
+        | some y => (post (.obj kvs) y).map fun s => s!"{k}/{s}"
+        | none => [s!"nested:{k}-lost"]
+      | some _ => []
+    else []
+
+def frameViolations (m : List (String × PEntry)) (before after : Obj) : List String :=
+  ((before.map (·.1)) ++ (after.map (·.1))).filterMap fun q =>
+    if q == "version" || (keyed q m).length != 0 then none
+    else if optBeq (get q after) (get q before) then none else some s!"frame:{q}-changed"
+
+def postShape (m : List (String × PEntry)) (before after : Json) : List String :=
+  match before, after with
+  | .obj b, .obj a =>
+    (m.flatMap fun p => entryViolations m b a p.1 p.2) ++ frameViolations m b a
+  | .obj _, _ => ["result-not-a-dict"]
+  | _, _ => []
+
+mutual
+def Entry.toPost : Entry → PEntry
+  | .const v => .const v
+  | .deleted => .deleted
+  | .move p => .move p
+  | .fn g a => .fn g a
+  | .sub m => .sub (postShape (postMap m))
+termination_by structural x => x
+def postMap : List (String × Entry) → List (String × PEntry)
+  | [] => []
+  | (k, e) :: r => (k, e.toPost) :: postMap r
+termination_by structural x => x
+end
+
+/-- clauses of the documented single-step contract violated by `after` = (`before` converted with `m`) -/
+def stepViolations (m : Mapping) (before after : Json) : List String := postShape (postMap m) before after
+
+/-- at the top level the `version` key belongs to `convert_dict`'s bookkeeping: entries for it are not judged -/
+def stepViolationsTop (m : Mapping) (before after : Json) : List String :=
+  stepViolations (m.filter fun p => p.1 != "version") before after
+
 end Typedpy.Convert
